@@ -216,6 +216,14 @@ STREAM_R = ['[1000.100] <1>  -> wl_display#1.get_registry(new id wl_registry#2)'
             '[1000.700] <1>  -> wl_registry#2.bind(1, "wl_t", 1, new id [unknown]#3)']
 
 
+# a connection that binds the same id as the other one to ANOTHER interface, whose messages happen to be called like the ones the
+# connection-naming code looks at (with other signatures)
+STREAM_S = ['[1000.100] <1>  -> wl_display#1.get_registry(new id wl_registry#2)',
+            '[1000.300] <1>  -> wl_registry#2.bind(1, "wl_s", 1, new id [unknown]#3)',
+            '[1000.500] <1>  -> wl_s#3.set_title()',
+            '[1000.700] <1> wl_s#3.get_layer_surface(7)']
+
+
 def _render(lines):
     from core import wl, matcher, util
     from core.connection_manager import ConnectionManager
@@ -246,9 +254,9 @@ def interleave(ctx, case):
     sa, sb = (case[2], case[3]) if len(case) > 2 else (0, 0)
     _quiet()
     # a stream may start after its get_registry (the log began later): then the role is unknown
-    if sa == 'R':
+    if sa in ('R', 'S'):
+        A, B = (STREAM_R if sa == 'R' else STREAM_S)[:na], STREAM_B[sb:sb + nb]
         sa = 0
-        A, B = STREAM_R[:na], STREAM_B[sb:sb + nb]
     else:
         A, B = STREAM_A[sa:sa + na], STREAM_B[sb:sb + nb]
     if sa == 9:
@@ -302,6 +310,9 @@ def interleave(ctx, case):
         nconn = (1 if (na or sa == 9) else 0) + (1 if nb else 0)
         ctx.check('each connection announced and closed once', len([s for s in items if s.startswith('New ')]) == nconn and len([s for s in items if s.startswith('Closed ')]) == nconn)
     roles = {c.name(): c.is_server() for c in mgr.connections()}
+    ctx.check('every tag that carried a line became a connection', (not na or name_of['a'] in roles) and (not nb or name_of['b'] in roles))
+    if (na and name_of['a'] not in roles) or (nb and name_of['b'] not in roles):
+        return
     if na:
         ctx.check('role of the first connection: from the direction of ITS OWN get_registry (sent = client side), unknown if its first line is something else',
                   roles[name_of['a']] is (False if sa == 0 else None))
@@ -352,7 +363,7 @@ def obligations(tier):
            'streams of <= 4 + <= 4 lines, all order-preserving interleavings (exhaustive)', interleave,
            cases=[(a, b) for a in range(0, 5) for b in range(0, 5) if a + b > 0 and (tier != 'quick' or a + b <= 6)] +
                  [(a, b, x, y) for (x, y) in ((1, 0), (0, 1), (1, 1)) for a in (1, 2, 3) for b in (1, 2, 3) if x + a <= 4 and y + b <= 4 and (tier != 'quick' or a + b <= 4)] +
-                 [(a, b, 9, 0) for a in (1, 2) for b in (0, 1, 2)] + [(a, b, 'R', 0) for a in (3, 4) for b in (0, 2)]),
+                 [(a, b, 9, 0) for a in (1, 2) for b in (0, 1, 2)] + [(a, b, 'R', 0) for a in (3, 4) for b in (0, 2)] + [(a, b, 'S', 0) for a in (2, 3, 4) for b in (2, 3)]),
         Ob('header-tag', 'symx', 'tag-like text inside string arguments never decides the connection', FUNCS[8:9], '3 header tags x queue or not x 6 payloads x 2 directions', header_tag, cases=[None]),
         Ob('frame-reachable', 'symx', 'reachability twin', FUNCS[:6], '', twin, cases=[(('new', 'obj'), 'x')], expect_cex=True),
     ]
